@@ -117,7 +117,8 @@ def run(ck):
     ck.assumptions += ["serial engine: the stream is chronological (a stream that is not is rejected as malformed, not judged)",
                        "IDs renumbered per run by first appearance and times replaced by their ranks (injective, order-preserving)",
                        "the requester is the harness's own component; it emits no tasks of its own (buffer tasks at its ports come from the library's hooks)"]
-    model(ck)
+    if not os.environ.get("VERIF_SKIP_MODEL"):   # development aid (sensitivity runs): the model part does not depend on /repo
+        model(ck)
     stacks, nets, ops, msgs, per = (10, 2, 36, 24, 4) if quick else (50, 10, 110, 60, 5)
     binary = ck.binary("nettrace")
     d = core.scratch("c32-")
@@ -153,6 +154,7 @@ def run(ck):
             elif not i.get("at_rest"):
                 restless += 1
             st = i.get("stats") or {}
+            stray_info += st.get("stray_ends", 0)
             if i.get("at_rest") and st.get("kinds", 0) >= 3 and i.get("events", 0) >= 200:
                 nontrivial += 1
         if not v.cases:
@@ -160,18 +162,21 @@ def run(ck):
         recs = tracepar.read_ndjson(v.trace)
         byrun = {}
         for head, body in runs_of(recs):
-            starts = {}
+            starts, ctl_ticks = {}, set()
             for ln, r in body:
                 if r["e"] == "start":
                     starts.setdefault(r["id"], r)
-            byrun[head["run"]] = (head, starts)
+                elif r["e"] == "end" and starts.get(r["id"], {}).get("loc", "").endswith(".Control.incoming"):
+                    # the component took a control command off its Control port in this tick (library buffer tracer)
+                    ctl_ticks.add((r.get("comp"), r.get("ps")))
+            byrun[head["run"]] = (head, starts, ctl_ticks)
         replays = out["replays"]
         for c in v.cases:
             if c["class"] == "more_of_the_same":
                 continue
             if c["class"] not in RULES:
                 raise core.Broken("unexpected CASE from TaskTrace: %s" % json.dumps(c)[:400])
-            head, starts = byrun[c["run"]]
+            head, starts, ctl_ticks = byrun[c["run"]]
             types = head.get("types") or {}
             ev = c["ev"]
             task = starts.get(c["id"])
@@ -186,11 +191,12 @@ def run(ck):
             else:
                 cname, ctype, kind, what = ev.get("comp", "?"), types.get(ev.get("comp", ""), "?"), "?", "?"
             key = {"class": c["class"], "comp": ctype, "kind": kind, "what": what, "reset": bool(head.get("resets")),
-                   "assembly": head.get("assembly")}
+                   "assembly": head.get("assembly"), "mkind": ev.get("mkind", ""),
+                   "in_control_tick": (ev.get("comp"), ev.get("ps")) in ctl_ticks}
             desc = "run %d (%s, resets=%s): %s at %s (%s): task kind=%s what=%s loc=%s; event %s" % (
                 c["run"], head.get("assembly"), head.get("resets"), c["class"], cname, ctype, kind, what,
                 (task or {}).get("loc", c.get("loc")), json.dumps(ev))
-            kk = "%s|%s|%s|%s|reset=%s" % (key["class"], key["comp"], key["kind"], key["what"], key["reset"])
+            kk = "%s|%s|%s|%s|reset=%s|ctltick=%s" % (key["class"], key["comp"], key["kind"], key["what"], key["reset"], key["in_control_tick"])
             rule_failures[kk] = rule_failures.get(kk, 0) + 1
             ck.report(key, desc, {"driver": "task_trace", "input": replays[c["run"]], "case": c, "task": task})
     ck.cov["traces_validated_against_impl"] += nruns
@@ -201,6 +207,7 @@ def run(ck):
     ck.cov["runs_crashed"] = crashed
     ck.cov["runs_not_at_rest"] = restless
     ck.cov["rule_failures"] = rule_failures
+    ck.cov["ends_of_never_started_ids"] = stray_info   # counted, not judged
     for out in outs[:1]:
         i = out["infos"][0]
         ck.sample({"run": {k: i.get(k) for k in ("assembly", "leaf", "sent", "answered", "resets", "events", "stats", "at_rest")}})
